@@ -15,6 +15,7 @@ type ControlChans struct {
 type pauseManager struct {
 	subscribers sync.Map // Map of *ControlChans to struct{}
 	isPaused    atomic.Bool
+	resumeMu    sync.Mutex // Serializes Resume calls
 	message     string
 }
 
@@ -70,6 +71,17 @@ func Pause(message ...string) {
 
 // Resume reads from each subscriber's ResumeCh to unblock them.
 func Resume() {
+	// Only one Resume at a time: each subscriber offers its ResumeCh once per pause,
+	// so two concurrent Resume calls would steal each other's acknowledgements.
+	manager.resumeMu.Lock()
+	defer manager.resumeMu.Unlock()
+
+	// Nothing to resume: without a pause in force no subscriber will ever
+	// offer its ResumeCh and the reads below would block until it exits.
+	if !manager.isPaused.Load() {
+		return
+	}
+
 	var wg sync.WaitGroup
 	manager.subscribers.Range(func(key, _ interface{}) bool {
 		chans := key.(*ControlChans)
